@@ -48,7 +48,19 @@ fn call(b: Builder, m: &mut Model, slot: usize, c: usize) -> Builder {
     // seeds >= 1000: empty text / empty blob; seeds >= 2000: custom tags that share one type number
     let empty = (1000..2000).contains(&c);
     let text: String = if empty { String::new() } else { (0..(3 + 5 * (c % 1000))).map(|i| (b'a' + ((i + slot) % 26) as u8) as char).collect() };
-    let blob: Vec<u8> = if empty { vec![] } else { (0..(2 + 7 * (c % 1000))).map(|i| marker(i, slot + 50)).collect() };
+    let mut blob: Vec<u8> = if empty { vec![] } else { (0..(2 + 7 * (c % 1000))).map(|i| marker(i, slot + 50)).collect() };
+    // seeds 3000..: contents that look like structure (end-tag images, a tag header, a whole boot information)
+    let look = c >= 3000;
+    const END: [u8; 8] = [0, 0, 0, 0, 8, 0, 0, 0];
+    if look {
+        blob = match c - 3000 {
+            0 => END.to_vec(),
+            1 => [&[1u8, 0, 0, 0, 9, 0, 0, 0][..], &END[..]].concat(),
+            2 => [&END[..], &END[..]].concat(),
+            3 => [&[16u8, 0, 0, 0, 0, 0, 0, 0][..], &END[..]].concat(),
+            _ => vec![0u8; 8],
+        };
+    }
     match slot {
         0 => {
             let t = CommandLineTag::new(&text);
@@ -66,7 +78,7 @@ fn call(b: Builder, m: &mut Model, slot: usize, c: usize) -> Builder {
             b.add_module(t)
         }
         3 => {
-            let t = BasicMemoryInfoTag::new(640 + s, 0x1F000 + s);
+            let t = if look { BasicMemoryInfoTag::new(0, 8) } else { BasicMemoryInfoTag::new(640 + s, 0x1F000 + s) };
             m.put(slot, supplied(&t));
             b.meminfo(t)
         }
@@ -76,7 +88,7 @@ fn call(b: Builder, m: &mut Model, slot: usize, c: usize) -> Builder {
             b.bootdev(t)
         }
         5 => {
-            let areas: Vec<MemoryArea> = (0..=c).map(|i| MemoryArea::new(0x1000 * i as u64, 0x800 + i as u64, MemoryAreaType::Available)).collect();
+            let areas: Vec<MemoryArea> = if look { (0..=(c - 3000) % 3).map(|_| MemoryArea::new(0x8_0000_0000, 0x8_0000_0000, MemoryAreaType::Custom(0))).collect() } else { (0..=c).map(|i| MemoryArea::new(0x1000 * i as u64, 0x800 + i as u64, MemoryAreaType::Available)).collect() };
             let t = MemoryMapTag::new(&areas);
             m.put(slot, supplied(&*t));
             b.mmap(t)
@@ -107,7 +119,7 @@ fn call(b: Builder, m: &mut Model, slot: usize, c: usize) -> Builder {
             b.efi32(t)
         }
         11 => {
-            let t = EFISdt64Tag::new(0x1_7000_0000 + s as u64);
+            let t = EFISdt64Tag::new(if look { 0x8_0000_0000 } else { 0x1_7000_0000 + s as u64 });
             m.put(slot, supplied(&t));
             b.efi64(t)
         }
@@ -127,7 +139,8 @@ fn call(b: Builder, m: &mut Model, slot: usize, c: usize) -> Builder {
             b.rsdpv2(t)
         }
         15 => {
-            let t = EFIMemoryMapTag::new_from_map(48, 1, &vec![0x5Au8.wrapping_add(s as u8); 48 * ((c % 1000) + 1)]);
+            let map: Vec<u8> = if look { END.iter().copied().cycle().take(48 * (1 + (c - 3000) % 3)).collect() } else { vec![0x5Au8.wrapping_add(s as u8); 48 * ((c % 1000) + 1)] };
+            let t = EFIMemoryMapTag::new_from_map(48, 1, &map);
             m.put(slot, supplied(&*t));
             b.efi_mmap(t)
         }
@@ -147,7 +160,7 @@ fn call(b: Builder, m: &mut Model, slot: usize, c: usize) -> Builder {
             b.efi32_ih(t)
         }
         19 => {
-            let t = EFIImageHandle64Tag::new(0x2_6000_0000 + s as u64);
+            let t = EFIImageHandle64Tag::new(if look { 0x8_0000_0000 } else { 0x2_6000_0000 + s as u64 });
             m.put(slot, supplied(&t));
             b.efi64_ih(t)
         }
@@ -383,6 +396,26 @@ fn run(ctx: &mut Ctx) {
             ctx.nontrivial();
             run_program(ctx, &prog, &|| format!("calls {:?}", prog));
         });
+    }
+    // contents that look like structure
+    ctx.bound("lookalike_contents", "blob kinds (ELF sections, SMBIOS, network, custom) with payloads made of end-tag images, a tag header + end-tag image, a whole 16-byte boot information, zeros; basic meminfo (0, 8), 64-bit pointers 0x8_0000_0000, memory areas and EFI descriptors made of end-tag images (tag bytes end in 00 00 00 00 08 00 00 00); each alone (the last tag before the end tag), followed by another tag, repeated");
+    for slot in [3usize, 5, 8, 11, 12, 15, 16, 19, 21] {
+        for v in 0..5usize {
+            for shape in 0..3 {
+                let me = (slot, 3000 + v);
+                let prog: Vec<(usize, usize)> = match shape {
+                    0 => vec![me],
+                    1 => vec![me, (20, 1), (0, 1)],
+                    _ => vec![me, (if REPEATABLE[slot] { slot } else { 21 }, 3000 + (v + 1) % 5), me],
+                };
+                let describe = || J::obj().set("part", "lookalike").set("calls", J::Arr(prog.iter().map(|(s, c)| J::from(format!("{}#{}", SLOT_NAMES[*s], c))).collect()));
+                ctx.leaf(describe, |ctx| {
+                    ctx.state_direct();
+                    ctx.nontrivial();
+                    run_program(ctx, &prog, &|| format!("calls {:?}", prog));
+                });
+            }
+        }
     }
     for typ in 0..=21u32 {
         ctx.leaf(
